@@ -216,8 +216,8 @@ impl Scenario for SboScenario {
 
     fn runs(&self, tier: Tier) -> u64 {
         match tier {
-            Tier::Quick => 30_000,
-            Tier::Thorough => 600_000,
+            Tier::Quick => 90_000,
+            Tier::Thorough => 2_400_000,
         }
     }
 
